@@ -455,6 +455,19 @@ func (s *Sim) runTask(t *Task, counted bool) {
 		}
 		s.lastSite = t.req.site
 	}
+	if t.req.kind == opLock && !t.lockArrived {
+		// the task now executes its Lock call
+		if ls := s.lockOf(t.req.obj, t.req.keep); ls.writer || ls.readers > 0 {
+			// taken: from now on the task is a pending writer and stays parked until the mutex is free
+			t.lockArrived = true
+			ls.pendingW++
+			if counted || s.cfg.KeepLog {
+				s.logEvent(t, t.req.site, "lock-wait", "")
+			}
+			s.lastRan = t
+			return
+		}
+	}
 	info := s.grant(t)
 	if counted || s.cfg.KeepLog {
 		s.logEvent(t, t.req.site, t.req.kind.String(), info)
